@@ -180,6 +180,9 @@ func (changes *Changes) checkFiles() error {
 		if err := checkListedFilename(file.Filename); err != nil {
 			return err
 		}
+		if file.Filename == filepath.Base(changes.Filename) {
+			return fmt.Errorf("Control file '%s' lists itself", file.Filename)
+		}
 	}
 	return nil
 }
